@@ -104,7 +104,11 @@ var (
 // verifC02CacheLookup is installed by the CAR-mode obligations (c02_car.go): the raw-object cache.
 var verifC02CacheLookup func(a *verifC02Archive, c cid.Cid) ([]byte, bool)
 
+// verifC02RealNodeRead: node reads of the handlers go through the real GetNodeByCid (CAR mode only).
+var verifC02RealNodeRead bool
+
 func verifC02Reset() {
+	verifC02RealNodeRead = false
 	verifC02Archives = map[*Epoch]*verifC02Archive{}
 	verifC02ByNum = map[uint64]*verifC02Archive{}
 }
@@ -349,6 +353,10 @@ func (ser *Epoch) FindCidFromSignature(ctx context.Context, sig solana.Signature
 }
 
 func (s *Epoch) GetNodeByCid(ctx context.Context, wantedCid cid.Cid) ([]byte, error) {
+	if verifC02RealNodeRead {
+		// C02.txConcurrent: the real GetNodeByCid (kept as verifOrig_GetNodeByCid by the rename) over the model CAR
+		return s.verifOrig_GetNodeByCid(ctx, wantedCid)
+	}
 	a := verifC02Archives[s]
 	if verifC02CacheLookup != nil {
 		// CAR mode (C02.*Prefetch): as the real GetNodeByCid, an object found in the cache is served from it
